@@ -469,6 +469,9 @@ func drawSnippet(t *rapid.T, name string, e genEnv) []Op {
 		if chance(t, "replaycb", 40) {
 			ops = append(ops, Op{K: "o2cb", B: rapid.IntRange(0, e.nBrows-1).Draw(t, "b2"), N: prov, Src: "stateold", SA: b, S: "code-u1"})
 		}
+		if c.Has("remember") && chance(t, "revisit", 50) {
+			ops = append(ops, Op{K: "newsess", B: b}, Op{K: "visit", B: b, S: pick(t, "route", visitRoutes...)})
+		}
 	case "2fa":
 		if !c.Has("auth") {
 			return nil
